@@ -1403,6 +1403,8 @@ def _never_none(e, known: dict) -> bool:
         return True
     if isinstance(e, ast.BinOp) and isinstance(e.op, (ast.Add, ast.Sub, ast.Mult, ast.FloorDiv, ast.Mod)):
         return _never_none(e.left, known) and _never_none(e.right, known)
+    if isinstance(e, ast.IfExp):
+        return _never_none(e.body, known) and _never_none(e.orelse, known)
     if isinstance(e, ast.Name):
         return known.get(e.id, False)
     return False
